@@ -96,7 +96,15 @@ class KernExporter(object):
         # Part elements is really the maximum number of lines we could have in the kern file
         # we add some to account for the **kern and the *- encoding at beginning and end of file and also tandem elements
         # that might be added. We also add the number of measures to account for the measure encoding
-        total_elements_ish = num_measures + num_notes + num_rests + 2 + 10
+        # every clef, tempo, time and key signature takes a line of its own as well
+        num_tandem = sum(
+            1
+            for el in part.iter_all()
+            if isinstance(
+                el, (spt.Clef, spt.Tempo, spt.TimeSignature, spt.KeySignature)
+            )
+        )
+        total_elements_ish = num_measures + num_notes + num_rests + num_tandem + 2 + 10
         self.out_data = np.empty(
             (total_elements_ish, len(self.unique_voc_staff)), dtype=object
         )
